@@ -257,6 +257,13 @@ def run_case(case, sb):
         if Tu["lines"] != T0["lines"] or pm is None or pu is None or set(pm) & set(pu) or sorted(pm + pu) != read:
             problems.append({"relation": "e: collected + unmatched do not partition the records read", "csvpath": tu,
                              "collected": Tu["lines"], "unmatched": Tu["unmatched"], "records_read": [records[p] for p in read]})
+    # (f) the explicit 'unmatched-mode: no-keep' is the default: nothing is held back
+    tk = full_text(case, rel, build_comment(case, {"unmatched-mode": "no-keep"}))
+    Tk = real.run_path(tk)
+    if Tk["raised"]:
+        problems.append({"relation": "f", "csvpath": tk, "raised": Tk["raised"]})
+    elif Tk["unmatched"] or Tk["lines"] != T0["lines"]:
+        problems.append({"relation": "f: unmatched-mode no-keep", "csvpath": tk, "unmatched": Tk["unmatched"], "lines": Tk["lines"], "expected_lines": T0["lines"]})
     nontrivial = len(case["fields"]) >= 2 and bool(case["free"]) and 0 < len(T0["lines"]) < len(sset)
     if case["after"]:
         labels.append("comment-after-path")
